@@ -5,9 +5,6 @@ import Compass.Model.MapMatch
 namespace Compass.Drv.C16
 open Compass Compass.Proto Compass.MapMatch
 
-/-- `x as f32` (round to nearest even), read back as a double -/
-def r32 (x : Float) : Float := x.toFloat32.toFloat
-
 def tolP : P (Option (Float × DistanceUnit)) :=
   optOf do
     let t ← float
@@ -66,7 +63,7 @@ def case : P String := do
     let oc ← tableP ecandP
     let dc ← tableP ecandP
     endOfLine
-    pure (outcomeOut (edgeProcess r32 tol mapping hasLookup q oc dc))
+    pure (outcomeOut (edgeProcess tol mapping hasLookup q oc dc))
   | _ => failure
 
 def run (line : String) : String := Proto.run case line
